@@ -109,10 +109,10 @@ def run(ctx):
             const_regex = False
             if o[0] == "call" and o[1] == "regex::Regex::new":
                 pat = local.peel(o[2][0])
-                if pat[0] in ("const", "namedconst") and isinstance(pat[1], str):
+                if isinstance(local.const_value(pat), str):
                     const_regex = True
             if const_regex:
-                ctx.ok("PAN-3", "%s:%s(Regex::new(<constant>))" % (b.path, n.rsplit("::", 1)[-1]), {"pattern": pat[1]}, b.loc(t.get("line")))
+                ctx.ok("PAN-3", "%s:%s(Regex::new(<constant>))" % (b.path, n.rsplit("::", 1)[-1]), {"pattern": local.const_value(pat)}, b.loc(t.get("line")))
             else:
                 ctx.violation("PAN-3", (b.path, "Result::unwrap of a run-time result"),
                               "unwrap of a fallible result computed from run-time data (%s): build() panics when it is Err" % local.show(o)[:160],
